@@ -118,6 +118,7 @@ pub fn build_live(family: &str, rng: &mut Rng, tier: u32) -> Option<LiveBuilt> {
         "panicscope" => Some(live_panic::build(rng, tier, true)),
         "paniccq" => Some(live_panic::build_cq(rng, tier)),
         "panicrw" => Some(live_panic::build_rw(rng, tier)),
+        "panichand" => Some(live_panic::build_hand(rng, tier)),
         _ => None,
     }
 }
